@@ -49,7 +49,9 @@ func (recFunc) Run(instanceID string, vs parser.Scope, is map[string]interface{}
 	return nil, nil
 }
 
-func (recFunc) DocString() (string, error) { return "records a value for the verification harness", nil }
+func (recFunc) DocString() (string, error) {
+	return "records a value for the verification harness", nil
+}
 
 // StartRecording installs a fresh recorder for t.rec (for checks which drive
 // the interpreter themselves).
